@@ -6,6 +6,8 @@ import sys
 
 PACKS = {
     "C20": "contracts.c20_numbers",
+    "C17": "contracts.c17_order",
+    "C12": "contracts.c12_atom",
 }
 
 
